@@ -3,14 +3,23 @@
    Line format:  <kind> <args> : op ; op ; ...
    varr <init_size> : push X | pusharr X.. | pop | trunc N | expand N | tailor N | set I X | get I
                       | last | len | cap
-   Output tokens per op: '-' (no value) 'v<int>' 'n<uint>' 'b<0|1>' followed by 'r<old>,<new>' for each
-   realloc the op issued (sizes in elements); then '| <live elements>'. */
+   bitmap <n bitmaps> : bit B N | set B N | clr B N | setr B N LEN | clrr B N LEN | clear B | expand B NBITS
+                      | copy D S | eq A B | isect A B | empty B | count B | min B | max B
+                      | and D A B | andc D A B | ior D A B | iorand D A B C | iorandc D A B C
+                      | iter B (whole FOREACH_BITMAP_BIT) | iinit B | inext   (ids may coincide: aliasing)
+     per op: return token, then all bitmaps as hex words without trailing zero words joined by '.',
+     bitmaps separated by '/', then '#'-token = VARR_LENGTH of each bitmap (representation, not contents)
+   Tokens starting with '#' or 'r' are bookkeeping (capacity / representation), all others are the
+   observables the property talks about.
+   Output tokens per op: '-' (no value) 'v<int>' 'n<uint>' 'b<0|1>' ('#c<uint>' for cap) followed by
+   '#r<old>,<new>' for each realloc the op issued (sizes in elements); then '| <live elements>'. */
 #include <stdio.h>
 #include <stdlib.h>
 #include <string.h>
 #include <stdint.h>
 #include "mir-alloc.h"
 #include "mir-varr.h"
+#include "mir-bitmap.h"
 
 typedef long elt;
 DEF_VARR (elt);
@@ -20,7 +29,7 @@ static void *h_malloc (size_t n, void *u) { return malloc (n); }
 static void *h_calloc (size_t k, size_t n, void *u) { return calloc (k, n); }
 static void *h_realloc (void *p, size_t old, size_t new, void *u) {
   char t[64];
-  sprintf (t, " r%zu,%zu", old / sizeof (elt), new / sizeof (elt));
+  sprintf (t, " #r%zu,%zu", old / sizeof (elt), new / sizeof (elt));
   if (strlen (evbuf) + strlen (t) < sizeof (evbuf)) strcat (evbuf, t);
   return realloc (p, new);
 }
@@ -75,7 +84,7 @@ static void run_varr (char *args, char *ops) {
     } else if (!strcmp (name, "len")) {
       printf (" n%zu", VARR_LENGTH (elt, v));
     } else if (!strcmp (name, "cap")) {
-      printf (" n%zu", VARR_CAPACITY (elt, v));
+      printf (" #c%zu", VARR_CAPACITY (elt, v));
     } else {
       printf (" ?%s", name);
     }
@@ -85,6 +94,105 @@ static void run_varr (char *args, char *ops) {
   for (size_t i = 0; i < VARR_LENGTH (elt, v); i++) printf (" %ld", VARR_GET (elt, v, i));
   printf ("\n");
   VARR_DESTROY (elt, v);
+}
+
+
+/* ---------------------------------------------------------------- bitmaps */
+#define MAXBM 8
+static void dump_bitmaps (bitmap_t *bm, int n) {
+  printf (" ");
+  for (int k = 0; k < n; k++) {
+    size_t len = VARR_LENGTH (bitmap_el_t, bm[k]);
+    bitmap_el_t *a = VARR_ADDR (bitmap_el_t, bm[k]);
+    while (len > 0 && a[len - 1] == 0) len--;
+    if (k) printf ("/");
+    if (len == 0) printf ("-");
+    for (size_t i = 0; i < len; i++) printf ("%s%lx", i ? "." : "", (unsigned long) a[i]);
+  }
+  printf (" #");
+  for (int k = 0; k < n; k++) printf ("%s%zu", k ? "/" : "", VARR_LENGTH (bitmap_el_t, bm[k]));
+}
+
+static void run_bitmap (char *args, char *ops) {
+  bitmap_t bm[MAXBM];
+  int n = (int) strtoul (args, NULL, 10);
+  if (n > MAXBM) n = MAXBM;
+  for (int k = 0; k < n; k++) bm[k] = bitmap_create2 (&h_alloc, 0);
+  bitmap_iterator_t iter;
+  int iter_ok = n > 0;
+  if (iter_ok) bitmap_iterator_init (&iter, bm[0]);
+  char *save, *op;
+  for (op = strtok_r (ops, ";", &save); op != NULL; op = strtok_r (NULL, ";", &save)) {
+    char name[32];
+    unsigned long a[4] = {0, 0, 0, 0};
+    int na = sscanf (op, " %31s %lu %lu %lu %lu", name, &a[0], &a[1], &a[2], &a[3]);
+    if (na < 1) continue;
+    na--;
+    /* which arguments are bitmap ids */
+    int nids = 0;
+    const char *nm = name;
+#define IS(s) (!strcmp (nm, s))
+    if (IS ("bit") || IS ("set") || IS ("clr") || IS ("setr") || IS ("clrr") || IS ("clear") || IS ("expand")
+        || IS ("empty") || IS ("count") || IS ("min") || IS ("max") || IS ("iter") || IS ("iinit"))
+      nids = 1;
+    else if (IS ("copy") || IS ("eq") || IS ("isect"))
+      nids = 2;
+    else if (IS ("and") || IS ("andc") || IS ("ior"))
+      nids = 3;
+    else if (IS ("iorand") || IS ("iorandc"))
+      nids = 4;
+    else if (IS ("inext"))
+      nids = 0;
+    else {
+      printf (" ?%s", name);
+      continue;
+    }
+    int ok = na >= nids;
+    for (int k = 0; k < nids && ok; k++)
+      if (a[k] >= (unsigned long) n) ok = 0;
+    if (IS ("inext") && !iter_ok) ok = 0;
+    if (!ok) {
+      printf (" REJECT");
+      break;
+    }
+    if (IS ("bit")) printf (" b%d", bitmap_bit_p (bm[a[0]], a[1]));
+    else if (IS ("set")) printf (" b%d", bitmap_set_bit_p (bm[a[0]], a[1]));
+    else if (IS ("clr")) printf (" b%d", bitmap_clear_bit_p (bm[a[0]], a[1]));
+    else if (IS ("setr")) printf (" b%d", bitmap_set_bit_range_p (bm[a[0]], a[1], a[2]));
+    else if (IS ("clrr")) printf (" b%d", bitmap_clear_bit_range_p (bm[a[0]], a[1], a[2]));
+    else if (IS ("clear")) { bitmap_clear (bm[a[0]]); printf (" -"); }
+    else if (IS ("expand")) { bitmap_expand (bm[a[0]], a[1]); printf (" -"); }
+    else if (IS ("copy")) { bitmap_copy (bm[a[0]], bm[a[1]]); printf (" -"); }
+    else if (IS ("eq")) printf (" b%d", bitmap_equal_p (bm[a[0]], bm[a[1]]));
+    else if (IS ("isect")) printf (" b%d", bitmap_intersect_p (bm[a[0]], bm[a[1]]));
+    else if (IS ("empty")) printf (" b%d", bitmap_empty_p (bm[a[0]]));
+    else if (IS ("count")) printf (" n%zu", bitmap_bit_count (bm[a[0]]));
+    else if (IS ("min")) printf (" n%zu", bitmap_bit_min (bm[a[0]]));
+    else if (IS ("max")) printf (" n%zu", bitmap_bit_max (bm[a[0]]));
+    else if (IS ("and")) printf (" b%d", bitmap_and (bm[a[0]], bm[a[1]], bm[a[2]]));
+    else if (IS ("andc")) printf (" b%d", bitmap_and_compl (bm[a[0]], bm[a[1]], bm[a[2]]));
+    else if (IS ("ior")) printf (" b%d", bitmap_ior (bm[a[0]], bm[a[1]], bm[a[2]]));
+    else if (IS ("iorand")) printf (" b%d", bitmap_ior_and (bm[a[0]], bm[a[1]], bm[a[2]], bm[a[3]]));
+    else if (IS ("iorandc")) printf (" b%d", bitmap_ior_and_compl (bm[a[0]], bm[a[1]], bm[a[2]], bm[a[3]]));
+    else if (IS ("iter")) {
+      bitmap_iterator_t bi;
+      size_t nb, cnt = 0;
+      printf (" i");
+      FOREACH_BITMAP_BIT (bi, bm[a[0]], nb) {
+        printf ("%s%zu", cnt ? "," : "", nb);
+        if (++cnt > 100000) break; /* a non-terminating iterator must not hang the harness */
+      }
+      if (cnt == 0) printf ("-");
+    } else if (IS ("iinit")) { bitmap_iterator_init (&iter, bm[a[0]]); printf (" -"); }
+    else if (IS ("inext")) {
+      size_t nb;
+      if (bitmap_iterator_next (&iter, &nb)) printf (" x%zu", nb); else printf (" x-");
+    }
+#undef IS
+    dump_bitmaps (bm, n);
+  }
+  printf ("\n");
+  for (int k = 0; k < n; k++) bitmap_destroy (bm[k]);
 }
 
 int main (void) {
@@ -98,6 +206,8 @@ int main (void) {
     if (sscanf (line, " %31s%n", kind, &off) < 1) continue;
     if (!strcmp (kind, "varr"))
       run_varr (line + off, colon + 1);
+    else if (!strcmp (kind, "bitmap"))
+      run_bitmap (line + off, colon + 1);
     else
       printf ("?kind %s\n", kind);
   }
